@@ -49,10 +49,11 @@ def gen(rng, tier):
     eps = '_'
     cases.append({'kind': 'pda', 'limit': 6, 'X': {'Q': ['q0', 'a1', 'a2', 'a3', 'a4'], 'Sigma': ['a'], 'Gamma': ['x'], 'eps': eps, 'q0': 'q0', 'F': ['a4'],
                   'delta': [['q0', eps, eps, 'q0', 'x'], ['q0', eps, eps, 'a1', eps], ['a1', eps, eps, 'a2', eps], ['a2', eps, eps, 'a3', eps], ['a3', eps, eps, 'a4', eps]]}})
-    for (x, y, q0, q1) in [('x', 'y', 'q0', 'q1'), ('u', 'v', 's', 't'), ('m', 'n', 'p', 'r'), ('1', '2', 'A', 'B'), ('k', 'j', 'c', 'd'), ('g', 'h', 'e0', 'e1')]:
-        for lim in (4, 7):
-            cases.append({'kind': 'pda', 'limit': lim, 'X': {'Q': [q0, q1], 'Sigma': ['a'], 'Gamma': [x, y], 'eps': eps, 'q0': q0, 'F': [q1],
-                          'delta': [[q0, eps, eps, q0, x], [q0, eps, eps, q0, y], [q0, 'a', y, q1, eps], [q0, 'a', x, q0, eps]]}})
+    # pushes happen only before the first letter: which stacks exist when the closure is cut off decides the verdict
+    for (x, y, q0, q1, q2) in [('x', 'y', 'q0', 'q1', 'q2'), ('u', 'v', 's', 't', 'w'), ('m', 'n', 'p', 'r', 'o'), ('1', '2', 'A', 'B', 'C'), ('k', 'j', 'c', 'd', 'b'), ('g', 'h', 'e0', 'e1', 'e2')]:
+        for lim in (5, 6, 8):
+            cases.append({'kind': 'pda', 'limit': lim, 'X': {'Q': [q0, q1, q2], 'Sigma': ['a'], 'Gamma': [x, y], 'eps': eps, 'q0': q0, 'F': [q2],
+                          'delta': [[q0, eps, eps, q0, x], [q0, eps, eps, q0, y], [q0, 'a', x, q1, eps], [q1, 'a', x, q1, eps], [q1, 'a', y, q2, eps], [q0, 'a', y, q2, eps]]}})
     import props.C11 as C11
     for t in C11.gen(rng, tier)[-(k // 3):]:
         t = dict(t)
@@ -187,7 +188,7 @@ def observe(c):
         old = GambaTools.pda_epsilon_closure_max_iterations
         GambaTools.pda_epsilon_closure_max_iterations = c['limit']
         try:
-            for w in ('', 'a', 'aa', 'ab'):
+            for w in ('', 'a', 'aa', 'ab', 'aaa', 'aaaa'):
                 if all(ch in x['Sigma'] for ch in w):
                     probe('accepts:' + w, lambda w=w: A.pda_accepts_word(P, w), bool, snap)
             probe('words', lambda: A.pda_words_up_to_n(P, 2), sorted, snap)
